@@ -1026,6 +1026,14 @@ pub fn eval_b(e: &E, c: &dyn Scope, bud: &Budget) -> MRes {
         E::Filter(x, n, k) => {
             let v = eval_b(x, c, bud)?;
             let kv = eval_kwargs(k, c, bud)?;
+            // host-registered filters used by the autoescape check: `zsafe` is registered with is_safe() = true and
+            // returns the display form, `zplain` does the same without the safe mark
+            if n == "zsafe" || n == "zplain" {
+                if v.is_undefined() {
+                    return unspec();
+                }
+                return Ok(MVal::Str(v.display(), n == "zsafe"));
+            }
             let Some(b) = find_builtin(n, BK::Filter) else { return unspec() };
             bud.spend(v.weight() as u64)?;
             match ref_call(b, &v, &kv) {
@@ -1039,6 +1047,13 @@ pub fn eval_b(e: &E, c: &dyn Scope, bud: &Budget) -> MRes {
         }
         E::Call(n, k) => {
             let kv = eval_kwargs(k, c, bud)?;
+            // host-registered functions: `zsafe_fn(v=..)` is registered as safe, `zplain_fn(v=..)` is not
+            if n == "zsafe_fn" || n == "zplain_fn" {
+                return match kv.get("v") {
+                    Some(v) if !v.is_undefined() => Ok(MVal::Str(v.display(), n == "zsafe_fn")),
+                    _ => unspec(),
+                };
+            }
             let Some(b) = find_builtin(n, BK::Func) else { return unspec() };
             match ref_call(b, &MVal::Undefined, &kv) {
                 Spec::Exact(r) => {
